@@ -23,11 +23,11 @@ class C03(Prop):
         m = 60 if tier == "quick" else 1500
         out = [Suite("arc_atomic", multigen.HEADER, [multigen.gen_fixed(rng, "arc_atomic") for _ in range(n)])]
         for kind in KINDS:
-            out.append(Suite(kind, "", [multigen.gen_fixed(rng, kind) for _ in range(m)], compare=False))
+            out.append(Suite(kind, multigen.HEADER, [multigen.gen_fixed(rng, kind) for _ in range(m)]))      # (lock-step where the kind has a model: arc/full_sync)
         # listeners set up concurrently by several threads (every access of the creations scheduled), then steady state
         out.append(Suite("setup_arc_atomic", multigen.HEADER, [multigen.gen_setup(rng, "arc_atomic") for _ in range(n // 2)]))
         for kind in KINDS:
-            out.append(Suite("setup_" + kind, "", [multigen.gen_setup(rng, kind) for _ in range(m // 2)], compare=False))
+            out.append(Suite("setup_" + kind, multigen.HEADER, [multigen.gen_setup(rng, kind) for _ in range(m // 2)]))
         return out
     def oracle(self, case, recs):
         return multigen.oracle_setup(case, recs) if case.meta.get("profile") == "setup" else multigen.oracle_fixed(case, recs)
@@ -39,4 +39,4 @@ class C03(Prop):
         for c in cases:
             if any(n == "creates" for p in c.meta["progs"] for n, a in p):
                 c.meta["profile"] = "setup"; c.meta["creators"] = [t for t, p in enumerate(c.meta["progs"]) if p and p[0][0] == "creates"]
-        return Suite("replay", multigen.HEADER, cases, compare=all(c.meta["chan"] == "arc_atomic" for c in cases))
+        return Suite("replay", multigen.HEADER, cases, compare=True)
